@@ -237,6 +237,81 @@ def python_level(T, mod, col, stats):
         _reject(stats, col, "py_dir2b", e)
     stats["py_distinct"] = max(stats.get("py_distinct", 0), len(outcomes))
 
+    # ---- every construction form of every record node x every value: to_bits == documented packing ----------
+    for j in mod.FORM_INDICES[1:]:
+        fn = getattr(mod, f"build_f{j}")
+        name = mod.FORM_NAMES[j]
+        try:
+            for b in range(1 << w):
+                P = [L.field(b, p[0], p[1]) for p in ps]
+                x = fn(P)
+                sx = x.bits() if is_ser else std.to_bits(x)
+                stats["py_form_evals"] += 1
+                if sx.width != w:
+                    col.add("py.ctor", f"to_bits(x) has width {sx.width}, count_bits = {w}; x built in form "
+                            f"{name} from parts {P}", pattern=b, form=j)
+                elif _bv_int(sx) != b:
+                    col.add("py.ctor", f"to_bits(x) = {_bv_int(sx):0{w}b} for x built in form {name} (pN = N "
+                            f"positional args, k.. = keyword order, copy = copy constructor) from parts {P}; documented "
+                            f"packing {b:0{w}b}", pattern=b, form=j, expected=b, observed=_bv_int(sx))
+            stats["py_forms_done"] += 1
+        except BaseException as e:
+            _reject(stats, col, "py_form", e)
+
+    # ---- the low bits of a serialised record are its serialised base class (base fields first) --------------
+    RT_ = L.resolve(T)
+    for bi, (B, n) in enumerate(mod.TOP_BASES):
+        base_node = ("rec", RT_[1][:n], (n,))
+        bvs = L.views(base_node)
+        wb = L.width(base_node)
+        obs = getattr(mod, f"observe_base{bi}")
+        try:
+            if std.count_bits(B) != wb:
+                col.add(f"py.base{bi}.count_bits", f"count_bits(base class with the first {n} fields) = "
+                        f"{std.count_bits(B)}, documented {wb}")
+                continue
+            for b in range(1 << w):
+                bvb = BitVector[w](format(b, f"0{w}b"))
+                hb = std.from_bits[B](bvb[wb - 1:0])
+                got = [_leaf_raw(v, lf)[0] for v, lf in zip(bvs, obs(hb))]
+                exp = [L.field(b, v.lo, v.w) for v in bvs]
+                stats["py_base_evals"] += 1
+                if got != exp:
+                    col.add(f"py.base{bi}.prefix", f"low {wb} bits of {b:0{w}b} read as the base class (first {n} fields): "
+                            f"leaves {got}, documented {exp}", pattern=b, expected=exp, observed=got)
+                x = built.get(b)
+                if x is not None:
+                    lowx = _bv_int(std.to_bits(x)) & ((1 << wb) - 1)
+                    hx = std.from_bits[B](BitVector[wb](format(lowx, f"0{wb}b")))
+                    gotx = [_leaf_raw(v, lf)[0] for v, lf in zip(bvs, obs(hx))]
+                    if gotx != exp:
+                        col.add(f"py.base{bi}.prefix_of_value", f"low {wb} bits of to_bits(x) are not the base-class part "
+                                f"of x: {gotx} vs {exp}", pattern=b, expected=exp, observed=gotx)
+            stats["py_base_done"] += 1
+        except BaseException as e:
+            _reject(stats, col, "py_base", e)
+
+    # ---- templated record vs the identical record without templates -----------------------------------------
+    if mod.TWIN is not None:
+        try:
+            if std.count_bits(mod.TWIN) != std.count_bits(TYPE):
+                col.add("py.twin.count_bits", f"count_bits differs from the non-templated twin: {std.count_bits(TYPE)} vs "
+                        f"{std.count_bits(mod.TWIN)}")
+            else:
+                for b in range(1 << w):
+                    P = [L.field(b, p[0], p[1]) for p in ps]
+                    x = built.get(b)
+                    if x is None:
+                        x = mod.build(P)
+                    a, t = _bv_int(std.to_bits(x)), _bv_int(std.to_bits(mod.build_twin(P)))
+                    stats["py_twin_evals"] += 1
+                    if a != t:
+                        col.add("py.twin.to_bits", f"templated record serialises parts {P} to {a:0{w}b}, the identical "
+                                f"non-templated record to {t:0{w}b}", pattern=b, expected=t, observed=a)
+                stats["py_twin_done"] += 1
+        except BaseException as e:
+            _reject(stats, col, "py_twin", e)
+
 
 # ----------------------------------------------------------------------------------------------
 def sim_outputs_to_leaves(vs, ports, outs, prefix_ser):
@@ -300,6 +375,35 @@ def compile_level(T, mod, r, col, stats, qualifiers, do_ct):
         stats["rt_distinct"] = max(stats.get("rt_distinct", 0), len(outcomes))
         if sim.A:
             col.add(f"rt.{q}.assert", f"VHDL assertion fired: {sim.A[:1]}")
+    if hasattr(mod, "CB"):
+        full = (1 << w) - 1
+        res = compile_entity(mod.CB)
+        if not res.ok:
+            stats["cb_rejected"] += 1
+            stats.setdefault("reject_msgs", {}).setdefault(f"cb: {res.error[:160]}", col.canon)
+        else:
+            d = compile_design(res.vhdl)
+            if d.findings or d.multi_driven:
+                col.add("cb.static", f"emitted VHDL has static findings {d.findings[:2]} {d.multi_driven[:2]}")
+            else:
+                sim = d.sim()
+                stats["cb_compiled"] += 1
+                for b in range(1 << w):
+                    sim.set("inp", b)
+                    outs = sim.outputs()
+                    for j in mod.FORM_INDICES:
+                        stats["cb_evals"] += 1
+                        if outs.get(f"cb{j}") != b:
+                            name = mod.FORM_NAMES[j]
+                            col.add("cb.ctor", f"emitted logic: record built in form {name} from the documented slices "
+                                    f"of {b:0{w}b}: to_bits = {outs.get(f'cb{j}')}", pattern=b, form=j, expected=b,
+                                    observed=outs.get(f"cb{j}"))
+                    if outs.get("cbnull") != 0:
+                        col.add("cb.null", f"emitted logic: to_bits(T(Null)) = {outs.get('cbnull')}", expected=0,
+                                observed=outs.get("cbnull"))
+                    if outs.get("cbfull") != full:
+                        col.add("cb.full", f"emitted logic: to_bits(T(Full)) = {outs.get('cbfull')}", expected=full,
+                                observed=outs.get("cbfull"))
     if do_ct:
         pats = ct_patterns_for(w)
         res = compile_entity(mod.CT)
@@ -365,7 +469,7 @@ def bitfield_write(T, mod, col, stats):
 
 
 # ----------------------------------------------------------------------------------------------
-def check_type(T, qualifiers, do_ct=True):
+def check_type(T, qualifiers, do_ct=True, reduced_forms=False):
     """complete check of one composition. returns (status, stats, violations)"""
     from collections import defaultdict
 
@@ -374,7 +478,7 @@ def check_type(T, qualifiers, do_ct=True):
     stats = defaultdict(int)
     r = Renderer(T)
     w = L.width(T)
-    src = r.module(qualifiers, ct_patterns_for(w) if do_ct else ())
+    src = r.module(qualifiers, ct_patterns_for(w) if do_ct else (), reduced_forms=reduced_forms)
     if T[0] == "ser":
         # helpers to observe / build the wrapped type directly
         r2 = Renderer(T[1])
@@ -404,16 +508,27 @@ def check_type(T, qualifiers, do_ct=True):
     return status, stats, list(col.items.values())
 
 
+BULK = ("L2.rec2", "L2.rec3", "L2.inherit", "L2.tinherit")      # the quadratic record strata of nesting 2
+
+
 def qualifiers_for(stratum, T, thorough):
     """which from_bits qualifiers the run-time wrapper is built with"""
     if thorough:
         return ("value", "signal", "temporary", "ref", "variable") if L.width(T) <= 7 else ("value", "signal")
-    return ("value", "signal")
+    return ("value",) if stratum in BULK else ("value", "signal")
 
 
 def ct_for(stratum, T, thorough):
-    """constants-in-context wrapper: for every composition"""
-    return True
+    """constants-in-context wrapper: everywhere in thorough; quick skips the quadratic nesting-2 record strata"""
+    return thorough or stratum not in BULK
+
+
+def reduced_forms_for(stratum, T, thorough):
+    """record construction forms: all forms for nesting-1 records (and everywhere in thorough up to width 8); the
+    quadratic nesting-2 strata of quick use the four most different forms"""
+    if thorough:
+        return L.width(T) > 8
+    return not stratum.startswith("L1.")
 
 
 # ----------------------------------------------------------------------------------------------
@@ -453,12 +568,16 @@ def _work(task):
     types, thorough, do_ct = task
     import io
     import contextlib
+    import time
 
     out = []
     for stratum, T in types:
         buf = io.StringIO()
+        t0 = time.process_time()
         with contextlib.redirect_stdout(buf):   # std exception infos are printed by cohdl
-            status, stats, viols = check_type(T, qualifiers_for(stratum, T, thorough), do_ct and ct_for(stratum, T, thorough))
+            status, stats, viols = check_type(T, qualifiers_for(stratum, T, thorough), do_ct and ct_for(stratum, T, thorough),
+                                              reduced_forms_for(stratum, T, thorough))
+        stats["cpu_ms_" + stratum] = int(1000 * (time.process_time() - t0))
         out.append({"stratum": stratum, "T": T, "status": status, "stats": dict(stats), "viols": viols})
     return out
 
